@@ -19,7 +19,7 @@ EXPLANATION = (
     "NOT decided (numeric / history): that the stored metric value equals the reported one after map_reward, and the "
     "contents of the data set after arbitrary interleavings.")
 
-FLOOR = {"S1": 1, "S2": 3, "S3": 3, "S4": 3, "S5": 6, "S6": 4, "S7": 3, "S8": 1}
+FLOOR = {"S1": 1, "S2": 3, "S3": 3, "S4": 3, "S5": 9, "S6": 4, "S7": 3, "S8": 1}
 
 
 def s1_keepfilter(ctx, rep, clause="S1"):
@@ -314,6 +314,39 @@ def s4(ctx, rep):
                 "final result forwarded although resource <= largest_update_resource is possible (double observation)")
 
 
+def s5_pending_only_if_continues(ctx, rep):
+    """a level becomes pending only for a trial that goes on running: every non-empty assignment of the list of levels to
+    register is dominated by `task_continues` (a stopped or paused trial will not report the next level - nothing would
+    ever remove the entry)"""
+    from .c01 import _dom_atoms
+    from ..engine import vars_assigned_from
+    P = ctx.P
+    f = P.method("HyperbandScheduler", "_update_searcher")
+    cfg = cfg_of(f)
+    tc = vars_assigned_from(f, lambda v: isinstance(v, ast.Subscript) and U(v.slice) == "'task_continues'")
+    if len(tc) != 1:
+        raise AnchorError("_update_searcher: local holding task_info['task_continues'] not found")
+    # the list that is iterated to register pending evaluations
+    regs = [x for x in walk_shallow(f.node) if isinstance(x, ast.For) and any(
+        isinstance(y, ast.Call) and fn_name(y) in ("register_pending", "append_trial") for y in ast.walk(x))]
+    if len(regs) != 1 or not isinstance(regs[0].iter, ast.Name):
+        raise AnchorError("_update_searcher: loop that registers the pending levels not found")
+    pv = regs[0].iter.id
+    n = 0
+    for nd in cfg.nodes:
+        if nd.kind == "stmt" and isinstance(nd.ast, ast.Assign) and any(isinstance(t, ast.Name) and t.id == pv for t in nd.ast.targets):
+            v = nd.ast.value
+            if isinstance(v, ast.List) and not v.elts:
+                continue
+            n += 1
+            ok = ("truth", tc[0], True) in _dom_atoms(cfg, nd.id)
+            rep.put(ok, "S5", "guarded_by", "HyperbandScheduler._update_searcher: levels become pending only if the trial continues", f, nd.ast,
+                    U(nd.ast)[:60], f"`{U(nd.ast)[:60]}` is not guarded by `{tc[0]}`: a trial that is stopped or paused at this report gets a pending "
+                    "entry for a level it will not report - no observation ever replaces it and nothing cleans it up")
+    if n < 2:
+        raise AnchorError(f"_update_searcher: {n} non-empty assignments of the pending levels (3 confirmed)")
+
+
 def s5_pair(ctx, rep):
     """(reported_result, keep_case) is one piece of state - 'the last case given to the searcher and whether it has to
     stay': whoever writes one of them writes the other on the same paths.  A stale pair makes the next report remove a
@@ -503,6 +536,7 @@ def run(ctx, rep, tier="quick"):
     s4(ctx, rep)
     s5(ctx, rep)
     s5_pair(ctx, rep)
+    s5_pending_only_if_continues(ctx, rep)
     s6(ctx, rep)
     s7(ctx, rep)
     s8(ctx, rep)
